@@ -116,6 +116,17 @@ Definition cue_of (c : cue_src) : cue :=
   (clock_seconds (c_begin c), clock_seconds (c_end c), items_list st0 (c_payload c)).
 Definition cues (f : file_src) : list cue := map cue_of (f_cues f).
 
+(* the value of a printed time, digit by digit (positional notation), for the exactness clause:
+   begin = h*3600 + m*60 + s + ms/1000 as a rational, whatever the digits are *)
+Fixpoint dec_value (ds : text) : Z :=
+  match ds with
+  | [] => 0
+  | d :: r => (d - 48) * 10 ^ Z.of_nat (length r) + dec_value r
+  end.
+Definition printed_seconds (h m s ms : text) : Q :=
+  Qplus (inject_Z (dec_value h * 3600 + dec_value m * 60 + dec_value s)) (Qmake (dec_value ms) 1000).
+Definition dec_digits (ds : text) : bool := forallb (fun c => (48 <=? c) && (c <=? 57)) ds.
+
 (* ------------------------------------------------------------------ concrete syntax *)
 Definition dig (n : Z) : Z := 48 + n.
 Definition pad2 (n : Z) : text := [dig (n / 10); dig (n mod 10)].
@@ -266,6 +277,19 @@ Fixpoint wf_cues (l : list cue_src) : bool :=
 Definition wf_file (f : file_src) : bool :=
   forallb (forallb blank_char) (f_lead f) && wf_cues (f_cues f).
 
+(* sub-grammars used by the theorems *)
+Definition plain_node (n : node) : bool := match n with NChar _ | NBreak => true | _ => false end.
+Definition plain_file (f : file_src) : bool := forallb (fun c => forallb plain_node (c_payload c)) (f_cues f).
+(* b/i/u tags in angle syntax (short, long, upper case), nested and adjacent at will, around plain text *)
+Fixpoint angle_node (n : node) : bool :=
+  match n with
+  | NChar _ | NBreak => true
+  | NTag _ sy body =>
+      negb (is_brace sy) && (fix go (l : list node) : bool := match l with [] => true | x :: l' => angle_node x && go l' end) body
+  | _ => false
+  end.
+Definition angle_file (f : file_src) : bool := forallb (fun c => forallb angle_node (c_payload c)) (f_cues f).
+
 (* ------------------------------------------------------------------ triggers of the recorded findings *)
 Fixpoint node_has (p : node -> bool) (n : node) : bool :=
   p n ||
@@ -288,5 +312,8 @@ Fixpoint has_sub (p s : text) : bool :=
   || match s with [] => false | _ :: s' => has_sub p s' end.
 Definition trigger_backslash (f : file_src) : bool :=
   existsb (fun c => has_sub [92;110;92;114] (print_nodes (c_payload c))) (f_cues f).
-(* CR LF terminators read through a stream that does not translate them (io.StringIO, newline="") *)
-Definition trigger_crlf_untranslated (f : file_src) (translated : bool) : bool := f_crlf f && negb translated.
+(* CR LF terminators read through a stream that does not translate them (io.StringIO, newline=""), in a
+   file that has a cue of two or more lines *)
+Definition trigger_crlf_untranslated (f : file_src) (translated : bool) : bool :=
+  f_crlf f && negb translated &&
+  existsb (fun c => match payload_lines (c_payload c) with _ :: _ :: _ => true | _ => false end) (f_cues f).
